@@ -1,14 +1,11 @@
 import Clemens.Proofs.EvalBounds
 /-
 Lemma library for C15 (part 1): the trace of all `int16` intermediates of `eval.do`, and the
-numeric bounds of every one of them under the material constraints.
+bounds of every one of them under the material constraints — the bounds are the functions of the tuning
+constants defined in `Proofs/EvalConsts.lean` (`midBound`, `baseB1` … `baseBound`, `evalBound`); nothing here
+depends on the current values of the constants.
 -/
 namespace Clemens
-
-/-- raw form of `LegalSide` of `Props/C15` on the six popcounts of one colour -/
-def legalSideRaw (nP nN nB nR nQ nK : Nat) : Prop :=
-  nK = 1 ∧ nP ≤ 8 ∧ nP + nN + nB + nR + nQ + nK ≤ 16 ∧
-  nP + (nN - 2) + (nB - 2) + (nR - 2) + (nQ - 1) ≤ 8
 
 /-- every value the Go code holds in an `int16` while it evaluates a non-drawn position -/
 structure EvalTrace where
@@ -58,16 +55,6 @@ theorem evalRaw_eq_trace (p : Pos) :
     | none => dsimp only; rw [h]; rfl
     | some e => dsimp only; rw [h]; rfl
 
-theorem tdiv24_bounds (x M : Int) (h1 : -(24 * M) ≤ x) (h2 : x ≤ 24 * M) :
-    -M ≤ x.tdiv 24 ∧ x.tdiv 24 ≤ M := by
-  by_cases hx : 0 ≤ x
-  · rw [Int.tdiv_eq_ediv_of_nonneg hx]; omega
-  · have : x.tdiv 24 = -((-x) / 24) := by
-      have h := Int.neg_tdiv (-x) 24
-      rw [Int.neg_neg] at h
-      rw [h, Int.tdiv_eq_ediv_of_nonneg (by omega)]
-    rw [this]; omega
-
 theorem isSome_of_legal (p : Pos) (hw : popcount (p.pieces 0 0) ≤ 8) (hb : popcount (p.pieces 1 0) ≤ 8) :
     ∃ tr, evalTrace p = some tr := by
   unfold evalTrace
@@ -75,171 +62,77 @@ theorem isSome_of_legal (p : Pos) (hw : popcount (p.pieces 0 0) ≤ 8) (hb : pop
   rw [evalPawnAdjustment_eq p _ hw hb]
   exact ⟨_, rfl⟩
 
-def absLe (x M : Int) : Prop := -M ≤ x ∧ x ≤ M
-
 def EvalAcc.within (e : EvalAcc) (M B : Int) : Prop := absLe e.mid M ∧ absLe e.end_ M ∧ absLe e.base B
 
-/-! ### arithmetic on the popcounts of one side -/
-
-/-- weighted piece counts of colour `c` -/
-def goodN (p : Pos) (c : Nat) : Nat :=   -- PST maxima
-  50 * popcount (p.pieces c 0) + 20 * popcount (p.pieces c 1) + 10 * popcount (p.pieces c 2)
-  + 10 * popcount (p.pieces c 3) + 5 * popcount (p.pieces c 4) + 40 * popcount (p.pieces c 5)
-def badN (p : Pos) (c : Nat) : Nat :=    -- PST minima (absolute value)
-  20 * popcount (p.pieces c 0) + 50 * popcount (p.pieces c 1) + 20 * popcount (p.pieces c 2)
-  + 5 * popcount (p.pieces c 3) + 20 * popcount (p.pieces c 4) + 50 * popcount (p.pieces c 5)
-def matN (p : Pos) (c : Nat) : Nat :=    -- material
-  100 * popcount (p.pieces c 0) + 310 * popcount (p.pieces c 1) + 310 * popcount (p.pieces c 2)
-  + 510 * popcount (p.pieces c 3) + 910 * popcount (p.pieces c 4)
-def adjHiN (p : Pos) (c : Nat) : Nat := 12 * popcount (p.pieces c 1) + 15 * popcount (p.pieces c 3)
-def adjLoN (p : Pos) (c : Nat) : Nat := 20 * popcount (p.pieces c 1) + 9 * popcount (p.pieces c 3)
-def mobN (p : Pos) (c : Nat) : Nat :=    -- crude mobility bound
-  64 + 72 * popcount (p.pieces c 0) + 80 * popcount (p.pieces c 1) + 80 * popcount (p.pieces c 2)
-  + 88 * popcount (p.pieces c 3) + 96 * popcount (p.pieces c 4) + 72 * popcount (p.pieces c 5)
-
-/-- the material constraints of colour `c` in raw form -/
-def legalRawOf (p : Pos) (c : Nat) : Prop :=
-  legalSideRaw (popcount (p.pieces c 0)) (popcount (p.pieces c 1)) (popcount (p.pieces c 2))
-    (popcount (p.pieces c 3)) (popcount (p.pieces c 4)) (popcount (p.pieces c 5))
-
-structure SideSums (p : Pos) (c : Nat) : Prop where
-  pawns : popcount (p.pieces c 0) ≤ 8
-  good : goodN p c ≤ 525
-  bad : badN p c + 20 * popcount (p.pieces c 0) ≤ 620
-  mat : matN p c ≤ 10450
-  adjHi : adjHiN p c ≤ 174
-  adjLo : adjLoN p c ≤ 218
-  adjLoMat : adjLoN p c ≤ matN p c
-  mob : mobN p c ≤ 1600
-  big : matN p c + adjHiN p c + mobN p c ≤ 12000
-
-theorem sideSums (p : Pos) (c : Nat) (h : legalRawOf p c) : SideSums p c := by
-  obtain ⟨h1, h2, h3, h4⟩ := h
-  constructor
-  · exact h2
-  · unfold goodN; omega
-  · unfold badN; omega
-  · unfold matN; omega
-  · unfold adjHiN; omega
-  · unfold adjLoN; omega
-  · unfold adjLoN matN; omega
-  · unfold mobN; omega
-  · unfold matN adjHiN mobN; omega
-
-theorem pstSum_bounds' (ph : Nat) (hph : ph < 2) (p : Pos) :
-    -(badN p 0 : Int) - goodN p 1 ≤ pstSum ph p ∧ pstSum ph p ≤ goodN p 0 + badN p 1 := by
-  have h := pstSum_bounds ph hph p
-  simp only [pc] at h
-  unfold goodN badN
-  omega
-
-theorem materialTerm_eq' (p : Pos) : materialTerm p = (matN p 0 : Int) - matN p 1 := by
-  unfold materialTerm matN pc; omega
-
-theorem adjTerm_bounds' (p : Pos) :
-    -(adjLoN p 0 : Int) - adjHiN p 1 ≤ adjTerm p ∧ adjTerm p ≤ adjHiN p 0 + adjLoN p 1 := by
-  have h := adjTerm_bounds p
-  simp only [pc] at h
-  unfold adjLoN adjHiN
-  omega
-
-theorem mobilityByColor_bounds' (p : Pos) (c : Nat) :
-    0 ≤ mobilityByColor p c ∧ mobilityByColor p c ≤ mobN p c := by
-  have h := mobilityByColor_bounds p c
-  simp only [pc] at h
-  unfold mobN
-  omega
-
-theorem combine_phase (S KI gW xW pW gB xB pB : Int)
-    (hlo : -xW - gB ≤ S) (hhi : S ≤ gW + xB) (hKI : -(20 * pW) ≤ KI ∧ KI ≤ 20 * pB)
-    (w0 : 0 ≤ gW ∧ 0 ≤ xW ∧ 0 ≤ pW) (w1 : gW ≤ 525) (w2 : xW + 20 * pW ≤ 620)
-    (b0 : 0 ≤ gB ∧ 0 ≤ xB ∧ 0 ≤ pB) (b1 : gB ≤ 525) (b2 : xB + 20 * pB ≤ 620) :
-    absLe (0 + S) 1145 ∧ absLe (0 + S + KI) 1145 := by
-  unfold absLe
-  omega
-
-theorem combine_base (R PR M A MW MB matW matB aHw aLw aHb aLb mUw mUb : Int)
-    (hR : -1344 ≤ R ∧ R ≤ 1344) (hPR : -54 ≤ PR ∧ PR ≤ 54)
-    (hM : M = matW - matB)
-    (hA : -aLw - aHb ≤ A ∧ A ≤ aHw + aLb)
-    (hMW : 0 ≤ MW ∧ MW ≤ mUw)
-    (hMB : 0 ≤ MB ∧ MB ≤ mUb)
-    (w1 : 0 ≤ matW ∧ matW ≤ 10450) (w2 : 0 ≤ aHw ∧ aHw ≤ 174) (_w3 : 0 ≤ aLw ∧ aLw ≤ 218) (w4 : mUw ≤ 1600)
-    (w5 : matW + aHw + mUw ≤ 12000) (w6 : aLw ≤ matW)
-    (b1 : 0 ≤ matB ∧ matB ≤ 10450) (b2 : 0 ≤ aHb ∧ aHb ≤ 174) (_b3 : 0 ≤ aLb ∧ aLb ≤ 218) (b4 : mUb ≤ 1600)
-    (b5 : matB + aHb + mUb ≤ 12000) (b6 : aLb ≤ matB) :
-    absLe (0 + R) 1344 ∧ absLe (0 + R + PR) 1398 ∧ absLe (0 + R + PR + M) 11848 ∧
-    absLe (0 + R + PR + M + A) 12240 ∧ (0 ≤ MW ∧ MW ≤ 1600) ∧ (0 ≤ MB ∧ MB ≤ 1600) ∧
-    absLe (0 + R + PR + M + A + MW) 14000 ∧ absLe (0 + R + PR + M + A + MW - MB) 14000 := by
-  unfold absLe
-  subst hM
-  refine ⟨by omega, by omega, by omega, by omega, by omega, by omega, by omega, by omega⟩
+/-- the base score: the accumulated bounds -/
+theorem combine_base (R PR M A MW MB : Int)
+    (hR : absLe R pawnBound) (hPR : absLe PR pairsBound) (hM : absLe M matBound) (hA : absLe A adjBound)
+    (hMW : mobLo ≤ MW ∧ MW ≤ mobHi) (hMB : mobLo ≤ MB ∧ MB ≤ mobHi) :
+    absLe (0 + R) baseB1 ∧ absLe (0 + R + PR) baseB2 ∧ absLe (0 + R + PR + M) baseB3 ∧
+    absLe (0 + R + PR + M + A) baseB4 ∧ absLe (0 + R + PR + M + A + MW) baseBW ∧
+    absLe (0 + R + PR + M + A + MW - MB) baseBound := by
+  unfold absLe at *
+  unfold baseBound baseBW baseB4 baseB3 baseB2 baseB1
+  refine ⟨by omega, by omega, by omega, by omega, by omega, by omega⟩
 
 /-- explicit bounds for every intermediate -/
 structure EvalTrace.Bounded (t : EvalTrace) : Prop where
-  ePst : t.ePst.within 1145 0
-  ePawns : t.ePawns.within 1145 1344
-  ePairs : t.ePairs.within 1145 1398
-  eMat : t.eMat.within 1145 11848
-  eAdj : t.eAdj.within 1145 12240
-  mobW : 0 ≤ t.mobW ∧ t.mobW ≤ 1600
-  mobB : 0 ≤ t.mobB ∧ t.mobB ≤ 1600
-  baseW : absLe t.baseW 14000
-  eMob : t.eMob.within 1145 14000
-  phase : 0 ≤ t.phase ∧ t.phase ≤ 24
-  prodMid : absLe t.prodMid 27480
-  prodEnd : absLe t.prodEnd 27480
-  prodSum : absLe t.prodSum 27480
-  quot : absLe t.quot 1145
-  score : absLe t.score 15145
-  result : absLe t.result 15145
+  ePst : t.ePst.within midBound 0
+  ePawns : t.ePawns.within midBound baseB1
+  ePairs : t.ePairs.within midBound baseB2
+  eMat : t.eMat.within midBound baseB3
+  eAdj : t.eAdj.within midBound baseB4
+  mobW : mobLo ≤ t.mobW ∧ t.mobW ≤ mobHi
+  mobB : mobLo ≤ t.mobB ∧ t.mobB ≤ mobHi
+  baseW : absLe t.baseW baseBW
+  eMob : t.eMob.within midBound baseBound
+  phase : 0 ≤ t.phase ∧ t.phase ≤ maxGamePhase
+  prodMid : absLe t.prodMid (midBound * maxGamePhase)
+  prodEnd : absLe t.prodEnd (midBound * maxGamePhase)
+  prodSum : absLe t.prodSum (midBound * maxGamePhase)
+  quot : absLe t.quot midBound
+  score : absLe t.score (midBound + baseBound)
+  result : absLe t.result (midBound + baseBound)
 
-theorem final_bounds (m e b g : Int) (hm : absLe m 1145) (he : absLe e 1145) (hb : absLe b 14000)
-    (hg : 0 ≤ g ∧ g ≤ 24) :
-    absLe (m * g) 27480 ∧ absLe (e * (24 - g)) 27480 ∧ absLe (m * g + e * (24 - g)) 27480 ∧
-    absLe ((m * g + e * (24 - g)).tdiv 24) 1145 ∧ absLe ((m * g + e * (24 - g)).tdiv 24 + b) 15145 := by
-  unfold absLe at *
-  have h1 := mul_bounds m g (-1145) 1145 hm.1 hm.2 hg.1
-  have h2 := mul_bounds e (24 - g) (-1145) 1145 he.1 he.2 (by omega)
-  have h3 := tdiv24_bounds (m * g + e * (24 - g)) 1145 (by omega) (by omega)
-  omega
-
+/-- the tapering: both products, their sum, the quotient and the score, for any phase scores within `M`, base score within `B`,
+game phase `g ∈ [0, G]` and divisor `G > 0` -/
+theorem final_bounds (m e b g M B G : Int) (hm : absLe m M) (he : absLe e M) (hb : absLe b B)
+    (hg : 0 ≤ g ∧ g ≤ G) (hG : 0 < G) :
+    absLe (m * g) (M * G) ∧ absLe (e * (G - g)) (M * G) ∧ absLe (m * g + e * (G - g)) (M * G) ∧
+    absLe ((m * g + e * (G - g)).tdiv G) M ∧ absLe ((m * g + e * (G - g)).tdiv G + b) (M + B) := by
+  have h1 := absLe_mul_right m g M G hm hg.1 hg.2
+  have h2 := absLe_mul_right e (G - g) M G he (by omega) (by omega)
+  have h1' := absLe_mul_right m g M g hm hg.1 (Int.le_refl _)
+  have h2' := absLe_mul_right e (G - g) M (G - g) he (by omega) (Int.le_refl _)
+  have hs : M * g + M * (G - g) = M * G := by rw [← Int.mul_add]; congr 1; omega
+  have h3 : absLe (m * g + e * (G - g)) (M * G) := by unfold absLe at *; omega
+  have h4 := tdiv_bounds (m * g + e * (G - g)) G M hG h3.1 h3.2
+  refine ⟨h1, h2, h3, h4, ?_⟩
+  unfold absLe at *; omega
 
 theorem evalTrace_bounded (p : Pos) (hw : legalRawOf p 0) (hb : legalRawOf p 1)
     (tr : EvalTrace) (h : evalTrace p = some tr) : tr.Bounded := by
-  have sw := sideSums p 0 hw
-  have sb := sideSums p 1 hb
   unfold evalTrace at h
   dsimp only at h
-  rw [evalPawnAdjustment_eq p _ sw.pawns sb.pawns] at h
+  rw [evalPawnAdjustment_eq p _ hw.2.1 hb.2.1] at h
   simp only [Option.bind_eq_bind, Option.bind_some, Option.pure_def, Option.some.injEq] at h
-  simp only [evalPst_eq, evalPawns_eq, evalPairs_eq, evalMaterial_eq, maxGamePhase_eq] at h
-  have i := isoDiff_bounds p
-  simp only [pc] at i
+  simp only [evalPst_eq, evalPawns_eq, evalPairs_eq, evalMaterial_eq] at h
   have g := gamePhase_bounds p
-  obtain ⟨hm0, hm⟩ := combine_phase (pstSum 0 p) (-20 * isoDiff p) (goodN p 0) (badN p 0) (popcount (p.pieces 0 0))
-    (goodN p 1) (badN p 1) (popcount (p.pieces 1 0))
-    (pstSum_bounds' 0 (by omega) p).1 (pstSum_bounds' 0 (by omega) p).2 (by omega)
-    (by omega) (by have := sw.good; omega) (by have := sw.bad; omega)
-    (by omega) (by have := sb.good; omega) (by have := sb.bad; omega)
-  obtain ⟨he0, he⟩ := combine_phase (pstSum 1 p) (-5 * isoDiff p) (goodN p 0) (badN p 0) (popcount (p.pieces 0 0))
-    (goodN p 1) (badN p 1) (popcount (p.pieces 1 0))
-    (pstSum_bounds' 1 (by omega) p).1 (pstSum_bounds' 1 (by omega) p).2 (by omega)
-    (by omega) (by have := sw.good; omega) (by have := sw.bad; omega)
-    (by omega) (by have := sb.good; omega) (by have := sb.bad; omega)
-  obtain ⟨b1, b2, b3, b4, mw, mb, b5, b6⟩ := combine_base
+  obtain ⟨hm0, hm⟩ := phase_bounds 0 (by omega) p hw hb
+  obtain ⟨he0, he⟩ := phase_bounds 1 (by omega) p hw hb
+  obtain ⟨b1, b2, b3, b4, b5, b6⟩ := combine_base
     (pawnRanked p) (pairsTerm p) (materialTerm p) (adjTerm p) (mobilityByColor p 0) (mobilityByColor p 1)
-    (matN p 0) (matN p 1) (adjHiN p 0) (adjLoN p 0) (adjHiN p 1) (adjLoN p 1) (mobN p 0) (mobN p 1)
-    (pawnRanked_bounds p) (pairsTerm_bounds p) (materialTerm_eq' p) (adjTerm_bounds' p)
-    (mobilityByColor_bounds' p 0) (mobilityByColor_bounds' p 1)
-    (by have := sw.mat; omega) (by have := sw.adjHi; omega) (by have := sw.adjLo; omega) (by have := sw.mob; omega)
-    (by have := sw.big; omega) (by have := sw.adjLoMat; omega)
-    (by have := sb.mat; omega) (by have := sb.adjHi; omega) (by have := sb.adjLo; omega) (by have := sb.mob; omega)
-    (by have := sb.big; omega) (by have := sb.adjLoMat; omega)
-  obtain ⟨f1, f2, f3, f4, f5⟩ := final_bounds _ _ _ _ hm he b6 g
+    (pawnRanked_bounds p) (pairsTerm_bounds p) (materialTerm_bounds p hw hb) (adjTerm_bounds p hw hb)
+    (mobilityByColor_bounds p 0 hw) (mobilityByColor_bounds p 1 hb)
+  have hm0' : absLe (0 + pstSum 0 p) midBound := by rw [Int.zero_add]; exact hm0
+  have he0' : absLe (0 + pstSum 1 p) midBound := by rw [Int.zero_add]; exact he0
+  have hm' : absLe (0 + pstSum 0 p + isoW 0 * isoDiff p) midBound := by rw [Int.zero_add]; exact hm
+  have he' : absLe (0 + pstSum 1 p + isoW 1 * isoDiff p) midBound := by rw [Int.zero_add]; exact he
+  obtain ⟨f1, f2, f3, f4, f5⟩ := final_bounds _ _ _ _ _ _ _ hm' he' b6 g phase_facts.2.2.2.2
   have z : absLe 0 0 := ⟨by omega, by omega⟩
   subst h
-  refine ⟨⟨hm0, he0, z⟩, ⟨hm, he, b1⟩, ⟨hm, he, b2⟩, ⟨hm, he, b3⟩, ⟨hm, he, b4⟩, mw, mb, b5, ⟨hm, he, b6⟩,
+  refine ⟨⟨hm0', he0', z⟩, ⟨hm', he', b1⟩, ⟨hm', he', b2⟩, ⟨hm', he', b3⟩, ⟨hm', he', b4⟩,
+    mobilityByColor_bounds p 0 hw, mobilityByColor_bounds p 1 hb, b5, ⟨hm', he', b6⟩,
     g, f1, f2, f3, f4, f5, ?_⟩
   dsimp only
   unfold absLe at f5 ⊢
